@@ -20,7 +20,9 @@ LEVEL = "exploration"
 RULE = (
     "Hypothesis-generated small ONNX graphs (2-25 nodes) built from pattern-seeded neighbourhoods of every rewrite rule "
     "(transpose pairs / elementwise forests / transpose-reduce / add forests / reshape pairs / identity reshapes / cast pairs / "
-    "Mul*Sigmoid / Dropout+Not / CSE duplicates / Range casts / If and Loop captures) mixed with free random steps, with symbolic "
+    "Mul*Sigmoid / Dropout+Not / CSE duplicates / Range casts with strides and spans that are not multiples of the stride / If and Loop captures, "
+    "half of them aimed at the interior value of a fold, a third nested two levels deep) mixed with free random steps and with calls of model-local "
+    "functions that merely share the name of an operator the rules match on (custom.Tanh.1::Tanh with a non-elementwise body), with symbolic "
     "dims (none, one, two symbols; bindings 1..4) and a generated subset of all values as graph outputs; plus raw lowered models of "
     "generated JAX programs with random intermediates promoted to outputs. Oracle: after every optimizer pass the model must pass the "
     "full checker, load in ORT and return the same outputs (count, order, dtype, runtime shape, values: exact for int/bool, rtol 1e-6 "
@@ -43,10 +45,19 @@ def _passes():
     return opt._OPTIMIZER_PASSES
 
 
-def _run_any(model, feeds):
+def _run_reference(model, feeds):
+    from onnx.reference import ReferenceEvaluator
+
+    names = {i.name for i in model.graph.input}
+    return ReferenceEvaluator(model).run(None, {k: v for k, v in feeds.items() if k in names}), "reference"
+
+
+def _run_any(model, feeds, engine=None):
     """ORT first; onnx.reference fallback for kernels ORT lacks. Returns (outputs, engine)."""
     from vf import onnxutil
 
+    if engine == "reference":
+        return _run_reference(model, feeds)
     try:
         sess = onnxutil.session(model)
     except Exception as e:
@@ -113,6 +124,17 @@ def differential(model, feeds, function_bodies=True):
     res["valid"] = True
     res["engine"] = eng
     raw_decl_bad = _declared_contradiction(model, ref)
+    baselines = {eng: ref}
+
+    def _baseline(engine):
+        # values are compared between runs of the *same* engine: ORT's and onnx.reference's Sigmoid differ by a few 1e-6
+        # relative, which a later Div amplifies past any fixed tolerance (Swish has no ORT kernel at opset 24/25)
+        if engine not in baselines:
+            try:
+                baselines[engine] = _run_any(model, feeds, engine=engine)[0]
+            except Exception:
+                baselines[engine] = ref
+        return baselines[engine]
     raw_inputs = [i.name for i in model.graph.input]
     im = ir.from_proto(model)
     prev = model.SerializeToString()
@@ -143,11 +165,11 @@ def differential(model, feeds, function_bodies=True):
             res["violation"] = {"pass": p.name, "kind": "inputs_reordered", "detail": f"{new_inputs} vs {raw_inputs}"}
             return res
         try:
-            got, _ = _run_any(cur, feeds)
+            got, eng_got = _run_any(cur, feeds)
         except Exception as e:
             res["violation"] = {"pass": p.name, "kind": "unloadable_after_pass", "detail": f"{type(e).__name__}: {str(e)[:300]}"}
             return res
-        diff = _compare(ref, got)
+        diff = _compare(_baseline(eng_got), got)
         if diff:
             res["violation"] = {"pass": p.name, "kind": "output_changed", "detail": diff}
             return res
@@ -178,11 +200,11 @@ def differential(model, feeds, function_bodies=True):
                 res["fired"].append("fn:" + p.name)
             try:
                 onnx.checker.check_model(cur, full_check=True)
-                got, _ = _run_any(cur, feeds)
+                got, eng_got = _run_any(cur, feeds)
             except Exception as e:
                 res["violation"] = {"pass": p.name, "stage": "function", "kind": "invalid_after_pass", "detail": f"{type(e).__name__}: {str(e)[:300]}"}
                 return res
-            diff = _compare(ref, got)
+            diff = _compare(_baseline(eng_got), got)
             if diff:
                 res["violation"] = {"pass": p.name, "stage": "function", "kind": "output_changed", "detail": diff}
                 return res
@@ -210,8 +232,11 @@ def spec_flags(spec):
                     side = "tensor"
                 elif i in inputs and i != spec["inputs"][0][0] and side == "none":
                     side = "input"
+    def _custom(nodes):
+        return any(nd.get("d") or any(_custom(sg["nodes"]) for sg in (nd.get("g") or {}).values()) for nd in nodes)
+
     return {"interior_output": interior_out, "captured": captured, "symbols": len(syms), "side": side,
-            "multi_consumer": any(c > 1 for c in consumed.values())}
+            "multi_consumer": any(c > 1 for c in consumed.values()), "custom_domain": _custom(spec["nodes"])}
 
 
 def check_spec(spec, acc=None):
@@ -226,6 +251,8 @@ def check_spec(spec, acc=None):
         fl = spec_flags(spec)
         sig = {"layer": "graph", "pass": v["pass"], "kind": v["kind"], "interior_output": fl["interior_output"],
                "captured": fl["captured"], "side": fl["side"], "symbolic": fl["symbols"] > 0}
+        if fl["custom_domain"]:
+            sig["custom_domain"] = True
         res["v"] = {"sig": sig, "case": {"kind": "spec", "spec": spec}, "detail": v["detail"] + f" | ops={ops}"}
     return res
 
